@@ -678,6 +678,10 @@ func (x *Exec) errConst(name string) Term {
 	x.sc.declFun("errId", []string{"Err"}, "Int")
 	ei, known := x.eng.errInits[name]
 	id := x.eng.errIDs[name]
+	if alias, ok := map[string]string{"os.ErrNotExist": "io/fs.ErrNotExist", "os.ErrExist": "io/fs.ErrExist", "os.ErrPermission": "io/fs.ErrPermission", "os.ErrClosed": "io/fs.ErrClosed"}[name]; ok {
+		x.sc.assert(eq(c, x.errConst(alias)))
+		return c
+	}
 	if !known {
 		// external sentinel (io.EOF, os.ErrNotExist, ...): a root error
 		x.extErrN++
